@@ -276,6 +276,10 @@ func (tb *termBuilder) addr(a ssa.Value) *Term {
 				}
 				return mk("field:"+n, base)
 			}
+			// a local struct built field by field (a state object filled once): the value stored into the field
+			if lit := tb.structLit(al); lit != nil && strings.HasPrefix(lit.Op, "struct:") && x.Field < len(lit.Args) && !escapesBeforeRead(al) {
+				return lit.Args[x.Field]
+			}
 		}
 		return mk("field:"+n, tb.of(x.X))
 	case *ssa.IndexAddr:
@@ -311,11 +315,51 @@ func (tb *termBuilder) inlineCall(x *ssa.Call) []*Term {
 		return nil
 	}
 	o := origin(c)
-	if o == nil || o.Pkg == nil || !strings.HasPrefix(o.Pkg.Pkg.Path(), modPath) || len(o.Blocks) != 1 || len(o.Params) != len(x.Call.Args) {
+	if o == nil || o.Pkg == nil || !strings.HasPrefix(o.Pkg.Pkg.Path(), modPath) || len(o.Blocks) == 0 || len(o.Params) != len(x.Call.Args) {
 		return nil
 	}
+	if strings.HasSuffix(o.Pkg.Pkg.Path(), "internal/xmath") {
+		return nil // the arithmetic vocabulary of the rules (RoundUpPowerOf2, SaturatedAdd, Abs) stays named
+	}
+	// straight-line helpers, and helpers whose only other exits are panics (argument validation): the blocks on the way
+	// to the single return are the body; results must not depend on which way was taken (no phi)
+	var body []ssa.Instruction
+	if len(o.Blocks) == 1 {
+		body = o.Blocks[0].Instrs
+	} else {
+		var rets []*ssa.Return
+		for _, b := range o.Blocks {
+			if r, isR := b.Instrs[len(b.Instrs)-1].(*ssa.Return); isR {
+				rets = append(rets, r)
+			}
+		}
+		if len(rets) != 1 || len(o.Blocks) > 16 {
+			return nil
+		}
+		for _, b := range o.Blocks {
+			if b != rets[0].Block() && !blockReaches(b, rets[0].Block()) {
+				continue // leads only to a panic
+			}
+			for _, in := range b.Instrs {
+				switch in.(type) {
+				case *ssa.Phi:
+					return nil
+				case *ssa.If, *ssa.Jump:
+					continue
+				}
+				body = append(body, in)
+			}
+		}
+		for _, b := range o.Blocks { // no loops
+			for _, su := range b.Succs {
+				if su.Index <= b.Index && blockReaches(su, b) {
+					return nil
+				}
+			}
+		}
+	}
 	var ret *ssa.Return
-	for _, in := range o.Blocks[0].Instrs {
+	for _, in := range body {
 		switch y := in.(type) {
 		case *ssa.Return:
 			ret = y
@@ -435,4 +479,118 @@ func wholeStore(a *ssa.Alloc) ssa.Value {
 		return nil
 	}
 	return v
+}
+
+// linearForm: a term over + / - / negation / multiplication by a constant as a map atom -> coefficient (the constant
+// part under "1"); atoms are the printed non-linear subterms. Two spellings of one linear expression - a - (b - c),
+// a + c - b, c - b + a - have the same form (modular arithmetic: coefficients wrap like the values do).
+func linearForm(t *Term) map[string]int64 {
+	out := map[string]int64{}
+	var add func(t *Term, k int64)
+	add = func(t *Term, k int64) {
+		switch {
+		case t.isConst():
+			out["1"] += k * int64(t.C)
+		case t.Op == "+":
+			for _, a := range t.Args {
+				add(a, k)
+			}
+		case t.Op == "-" && len(t.Args) == 2:
+			add(t.Args[0], k)
+			add(t.Args[1], -k)
+		case t.Op == "u-" && len(t.Args) == 1:
+			add(t.Args[0], -k)
+		case t.Op == "*":
+			var c *Term
+			var rest []*Term
+			for _, a := range t.Args {
+				if a.isConst() && c == nil {
+					c = a
+				} else {
+					rest = append(rest, a)
+				}
+			}
+			if c != nil && len(rest) == 1 {
+				add(rest[0], k*int64(c.C))
+				return
+			}
+			out[t.String()] += k
+		default:
+			out[t.String()] += k
+		}
+	}
+	add(t, 1)
+	for a, k := range out {
+		if k == 0 {
+			delete(out, a)
+		}
+	}
+	return out
+}
+
+func sameLinear(a, b map[string]int64) bool {
+	if len(a) != len(b) {
+		return false
+	}
+	for k, v := range a {
+		if b[k] != v {
+			return false
+		}
+	}
+	return true
+}
+
+func blockReaches(from, to *ssa.BasicBlock) bool {
+	seen := map[*ssa.BasicBlock]bool{}
+	var dfs func(b *ssa.BasicBlock) bool
+	dfs = func(b *ssa.BasicBlock) bool {
+		if b == to {
+			return true
+		}
+		if seen[b] {
+			return false
+		}
+		seen[b] = true
+		for _, s := range b.Succs {
+			if dfs(s) {
+				return true
+			}
+		}
+		return false
+	}
+	for _, s := range from.Succs {
+		if dfs(s) {
+			return true
+		}
+	}
+	return false
+}
+
+// escapesBeforeRead: the address of the local is handed to something (a call, a store, a closure) - its fields may then
+// change behind the literal. Loads, field addresses used for loads / the initialising stores do not count.
+func escapesBeforeRead(al *ssa.Alloc) bool {
+	for _, u := range *al.Referrers() {
+		switch x := u.(type) {
+		case *ssa.FieldAddr:
+			for _, uu := range *x.Referrers() {
+				switch y := uu.(type) {
+				case *ssa.UnOp, *ssa.DebugRef:
+				case *ssa.Store:
+					if y.Addr != ssa.Value(x) {
+						return true
+					}
+				default:
+					return true
+				}
+			}
+		case *ssa.UnOp, *ssa.DebugRef:
+		case *ssa.Store:
+			if x.Addr != ssa.Value(al) {
+				return true
+			}
+		default:
+			return true
+		}
+	}
+	return false
 }
